@@ -143,6 +143,12 @@ fn clear_or_fold_deleted_lines(
     }
 }
 
+/// Verification hook: character-level diff of a replaced line.
+#[cfg(feature = "verif_hooks")]
+pub fn verif_line_diff(old: &str, new: &str) -> Vec<Range<usize>> {
+    line_diff(old, new)
+}
+
 #[cfg(test)]
 mod modified_line_ranges_tests {
     use super::*;
